@@ -2,7 +2,7 @@
 from vmon import env, hooks, scopes, tablegen
 from vmon.hooks import MON
 from vmon.molgen import random_tree_mol, spell, macrocycle, from_read, GAtom
-from vmon.aromgen import standard_system, link_systems, pi_set
+from vmon.aromgen import standard_system, link_systems, pi_set, single_ring_bonds
 from vmon.matching import exact_pm
 from vmon.roundtrip import roundtrip
 from vmon.smiles_reader import read_smiles, SmilesSyntaxError
@@ -95,6 +95,8 @@ def run(ctx):
         parts = [standard_system(rng, nrings=rng.choice([1, 2, 3]), sizes=rng.choice([(5, 6, 6, 7), (6,), (6, 8), (4, 6, 8)]), chords=0)
                  for _ in range(rng.choice([1, 2, 2, 3]))]
         m, kind_of, ae = link_systems(rng, parts) if len(parts) > 1 else parts[0]
+        if rng.random() < 0.5:
+            ae = single_ring_bonds(rng, m, kind_of, ae, k=rng.choice([1, 1, 2]))
         P, unknown = pi_set(kind_of)
         adj = {v: [] for v in range(len(m.atoms))}
         for a, b in ae:
